@@ -15,9 +15,36 @@ ASSUMPTIONS = ['latency threshold 0.5 s against a 50 ms poll interval']
 LAT = 0.5
 
 
-def run_scheduled(query, chunks, mode='json', stall_before_read=0.0, timeout=30):
-    """chunks: list of (bytes, sleep_after). Returns (lines_with_times, send_times(list of (t, nbytes_total)), rc, err)"""
-    p = subprocess.Popen([aglib.AGRIND, query, '-o', mode], stdin=subprocess.PIPE, stdout=subprocess.PIPE, stderr=subprocess.PIPE, env=aglib.ENV)
+def run_scheduled(query, chunks, mode='json', stall_before_read=0.0, timeout=30, fifo=None):
+    """chunks: list of (bytes, sleep_after). Returns (lines_with_times, send_times(list of (t, nbytes_total)), rc, err).
+    With fifo=<path of a named pipe> the input is given as `--file <path>` instead of stdin."""
+    if fifo:
+        p = subprocess.Popen([aglib.AGRIND, query, '-o', mode, '--file', fifo], stdin=subprocess.DEVNULL, stdout=subprocess.PIPE, stderr=subprocess.PIPE, env=aglib.ENV)
+
+        class W(object):
+            pass
+        w = W()
+        opened = []
+        to = threading.Thread(target=lambda: opened.append(open(fifo, 'wb', buffering=0)), daemon=True)
+        to.start()
+        to.join(10)
+        if not opened:
+            # agrind never opened the pipe: unblock our open() and report what happened
+            try:
+                fd = os.open(fifo, os.O_RDONLY | os.O_NONBLOCK)
+                to.join(2)
+                os.close(fd)
+            except OSError:
+                pass
+            p.kill()
+            return [], [], None, b'input pipe was never opened'
+        w.fh = opened[0]
+        w.write = w.fh.write
+        w.flush = lambda: None
+        w.close = w.fh.close
+        p.stdin = w
+    else:
+        p = subprocess.Popen([aglib.AGRIND, query, '-o', mode], stdin=subprocess.PIPE, stdout=subprocess.PIPE, stderr=subprocess.PIPE, env=aglib.ENV)
     out = []
     t0 = time.time()
 
@@ -99,12 +126,24 @@ def explore(ctx):
         cuts = sorted(cuts | mid)
         pieces = [data[a:b] for a, b in zip([0] + cuts, cuts + [len(data)])]
         chunks = [(pc, (0.02 if b in mid else rng.choice([0, 0, 0.005, 0.07, 0.12]))) for pc, b in zip(pieces, cuts + [len(data)])]
-        out, sent, rc, err = run_scheduled(q, chunks)
+        fifo = None
+        if rep % 3 == 2:
+            # the same schedule with the input attached as `--file <named pipe>`
+            import tempfile
+            tmpd = tempfile.mkdtemp(prefix='agv-c15-', dir=aglib.BUILD)
+            fifo = os.path.join(tmpd, 'in.fifo')
+            os.mkfifo(fifo)
+        try:
+            out, sent, rc, err = run_scheduled(q, chunks, fifo=fifo)
+        finally:
+            if fifo:
+                os.remove(fifo)
+                os.rmdir(tmpd)
         evaluations += 1
         got = [l for _t, l in out]
         if rc != 0 or got != want:
             failures.append({'kind': 'spec', 'what': 'output depends on how the input bytes are chunked/paced (rc=%s): %d lines, expected %d' % (rc, len(got), len(want)),
-                             'payload': {'query': q, 'chunks': [(pc.decode('utf8', 'replace'), d) for pc, d in chunks], 'got': [g.decode('utf8', 'replace') for g in got[:10]]}})
+                             'payload': {'query': q, 'input_attached_as': '--file <named pipe>' if fifo else 'stdin', 'chunks': [(pc.decode('utf8', 'replace'), d) for pc, d in chunks], 'got': [g.decode('utf8', 'replace') for g in got[:10]]}})
         if cuts and any(d >= 0.07 for _p, d in chunks):
             nontrivial += 1
         if rep == 0:
@@ -188,7 +227,7 @@ def explore(ctx):
             failures.append({'kind': 'corr', 'what': r['corr'], 'payload': payload(r)})
     cov = {
         'evaluations': evaluations + len(cases), 'distinct_nontrivial': nontrivial,
-        'rule': 'the real binary behind pipes: random chunkings (cuts anywhere, also inside multi-byte characters; pauses of 0/5/70/120 ms; final line with and without newline), '
+        'rule': 'the real binary behind pipes: random chunkings (cuts anywhere, also inside multi-byte characters; pauses of 0/5/70/120 ms; final line with and without newline; every third schedule with the input attached as --file <named pipe>), '
                 'inputs with lines of 1 KiB .. 200 KB (thorough: 3 MiB) at random positions among ordinary lines, raw and through json, against an independently computed expected output, '
                 'paced producers (one line every 5..600 ms) with per-row latency measured against %.1f s, a burst of 5000 (thorough: 200000) rows into a stalled consumer; '
                 'plus record pipelines against the model; non-trivial = a schedule with a mid-line split and a pause, a paced run, or a stalled-consumer run' % LAT,
